@@ -264,12 +264,21 @@ func (r *LogValueRef) getOffsetDataValue(log *types.Log) []byte {
 
 	offsetStartByte := dataOffset * Word
 
-	x := log.Data[offsetStartByte : offsetStartByte+Word]
-
-	lengthByteOffset := new(big.Int).SetBytes(x).Uint64()
-	y := log.Data[lengthByteOffset : lengthByteOffset+Word]
-	length := new(big.Int).SetBytes(y).Uint64()
+	// The offset and the length are read from the log, i.e. they are chosen by whoever emitted
+	// it. They must neither be used to index outside of the data nor to allocate more than the
+	// log itself holds: if the offset word or the length word is not fully contained in the
+	// data, does not fit into 64 bits, or if the length exceeds the size of the data, the
+	// reference resolves to the empty value.
+	lengthByteOffset, ok := readUint64Word(log.Data, offsetStartByte)
+	if !ok {
+		return []byte{}
+	}
+	length, ok := readUint64Word(log.Data, lengthByteOffset)
+	if !ok || length > uint64(len(log.Data)) {
+		return []byte{}
+	}
 	value := make([]byte, length)
+	// No overflow: lengthByteOffset + Word <= len(log.Data) and length <= len(log.Data).
 	startByte := lengthByteOffset + Word
 	endByte := startByte + length
 
@@ -281,6 +290,20 @@ func (r *LogValueRef) getOffsetDataValue(log *types.Log) []byte {
 		copy(value, log.Data[startByte:availableEnd])
 	}
 	return value
+}
+
+// readUint64Word reads the word data[start:start+Word] as an unsigned integer. It returns false
+// if the word is not fully contained in data or if its value does not fit into 64 bits.
+func readUint64Word(data []byte, start uint64) (uint64, bool) {
+	dataLen := uint64(len(data))
+	if start > dataLen || dataLen-start < Word {
+		return 0, false
+	}
+	n := new(big.Int).SetBytes(data[start : start+Word])
+	if !n.IsUint64() {
+		return 0, false
+	}
+	return n.Uint64(), true
 }
 
 const (
